@@ -689,10 +689,38 @@ def gen_second_system(rng, spec, cfg, closure_names, i):
     return {"op": "second_system", "name": f"sys_n{i}", "new_up": {"name": f"up_x{i}", "attrs": a}}
 
 
+def gen_cross_system(rng, spec, cfg, closure_names, i):
+    """Clone the system (disjoint copy), then try a link edit that would share an object between the two systems."""
+    names = [n for n in spec["order"] if n in closure_names]
+    sfx = f"_b{i}"
+    cls = {n: spec["objs"][n]["cls"] for n in names}
+    cands = []
+    for n in names:
+        c = cls[n]
+        if c == "System":
+            cands += [(n + sfx, "usage_patterns", m, u) for u in names if cls[u] == "UsagePattern" for m in ("append", "iadd", "assign_list")]
+        elif c == "UsagePattern":
+            for a, k in (("network", "Network"), ("country", "Country"), ("usage_journey", "UsageJourney")):
+                cands += [(n + sfx, a, "set", u) for u in names if cls[u] == k]
+            cands += [(n + sfx, "devices", m, u) for u in names if cls[u] == "Device" for m in ("append", "assign_list")]
+        elif c == "UsageJourney":
+            cands += [(n + sfx, "uj_steps", m, u) for u in names if cls[u] == "UsageJourneyStep" for m in ("append", "iadd")]
+        elif c == "UsageJourneyStep":
+            cands += [(n + sfx, "jobs", m, u) for u in names if cls[u] in S.JOB_CLASSES for m in ("append", "assign_list")]
+        elif c == "Job":
+            cands += [(n + sfx, "server", "set", u) for u in names if cls[u] in ("Server", "BoaviztaCloudServer")]
+        elif c in S.SERVICE_OF_JOB:
+            cands += [(n + sfx, "service", "set", u) for u in names if cls[u] == S.SERVICE_OF_JOB[c]]
+    if not cands:
+        return None
+    target, attr, method, arg = rng.choice(cands)
+    return {"op": "cross_system", "suffix": sfx, "target": target, "attr": attr, "method": method, "arg": arg}
+
+
 C16_MIX = [
     (gen_list_op_wild, 40), (gen_list_assign, 10), (gen_assign_slice, 6), (gen_assign_equal, 8), (gen_link, 12), (gen_new_storage, 2),
     (gen_add_job, 5), (gen_add_step, 4), (gen_add_up, 4), (gen_remove_up, 3), (gen_permute_ups, 2),
-    (gen_delete, 6), (gen_second_system, 4),
+    (gen_delete, 6), (gen_second_system, 4), (gen_cross_system, 3),
 ]
 
 
